@@ -699,7 +699,8 @@ def post_cancel(w: World, snap: dict[str, Any], info: dict[str, Any]) -> tuple[s
         if info["injected"] and snap["workflow"] not in COMPLETE:
             return ("cancel_not_processed/" + str(snap["workflow"]), {"workflow": snap["workflow"]})
         return None
-    late = [e for e in w.ledger.entries if e["canceled"]]
+    in_flight = set(info.get("in_flight_entries") or ())  # task bodies entered by a handler that was already running when the cancel was committed
+    late = [e for e in w.ledger.entries if e["canceled"] and e["n"] not in in_flight]
     if late:
         e = late[0]
         return ("task_started_after_cancel/%s.%s" % (e["ref"], e["task"]), {"ref": e["ref"], "task": e["task"], "n": e["n"]})
@@ -783,6 +784,15 @@ def make_post_signal(persistent: bool, payload: int = 7) -> Callable[[World, dic
         if not sent:
             if wst != "SUSPENDED" or len(runs) != 1 or snap["workflow"] != "RUNNING":
                 return ("suspended_stage_did_not_stay_suspended/%s" % wst, {"w": wst, "runs": len(runs), "workflow": snap["workflow"]})
+            return None
+        samples = set(handled_while)
+        if not persistent and len(samples) > 1 and "SUSPENDED" in samples:
+            # statement-level race: the stage (un)suspended while the signal handler was in flight -
+            # the handler may have read either status; both outcomes are "as of when it was handled"
+            if len(runs) == 2 and (wst != "SUCCEEDED" or snap["workflow"] != "SUCCEEDED"):
+                return ("signal_consumed_but_not_finished/%s" % wst, {"w": wst, "workflow": snap["workflow"], "handled_while": handled_while})
+            if len(runs) not in (1, 2):
+                return ("signal_transient_runs=%d" % len(runs), {"runs": len(runs), "handled_while": handled_while})
             return None
         effective = persistent or (handled_while and handled_while[0] == "SUSPENDED")
         if effective:
@@ -1655,12 +1665,14 @@ def cancel_crash_run(workload: str, j_sym: Any, k_sym: Any, max_k: int = 14) -> 
 
 # ----------------------------------------------------------------------------------------------- statement-level handler race
 def handler_stmt_race_run(prop: str, workload: str, j_sym: Any, k_sym: Any, pick_sym: Any, monitors: tuple[str, ...] = ("C02", "C06"),
-                          compare: str = "reference", max_k: int = 90, a_pick_sym: Any = 0) -> bool:
+                          compare: str = "reference", max_k: int = 90, a_pick_sym: Any = 0,
+                          inject: Callable[[World], None] | None = None, post: Callable[[World, dict[str, Any], Any], tuple[str, Any] | None] | None = None) -> bool:
     """Two workers, one pre-emption, every pair of handlers the run offers: the handler of the j-th
     delivered message (worker A) is stopped just before its k-th SQL statement and another
     deliverable message (the pick-th of those visible at that instant) is handled completely by
     worker B; then A continues with whatever it had read before.  A itself is any of the (<= 3)
-    oldest deliverable messages at step j.  Real SQLite file; a position
+    oldest deliverable messages at step j.  With ``inject`` a client request (signal, cancel) is
+    accepted right before step j, so its handler is one of the two that race.  Real SQLite file; a position
     inside A's open write transaction is not enabled (B would wait for the commit) and slips to the
     next statement outside one.  j, k and the pick are symbolic."""
     with hx.Path("handler_stmt_race:%s:%s" % (prop, workload)) as P:
@@ -1692,7 +1704,8 @@ def handler_stmt_race_run(prop: str, workload: str, j_sym: Any, k_sym: Any, pick
                         state["done"] = True
                         state["at"] = state["n"]
                         state["sql"] = " ".join(sql.split()[:4])
-                        row = vis[hx.pick(pick_sym, min(len(vis), 3))]
+                        cand = vis[:2] + ([vis[-1]] if len(vis) > 2 else [])  # the two oldest and the newest (an injected request is the newest)
+                        row = cand[hx.pick(pick_sym, len(cand))]
                         state["b"] = row["message_type"]
                         saved = (HOOKS.ctx, HOOKS.handler_base, w._in_deliver, HOOKS.on_statement)
                         HOOKS.on_statement = None
@@ -1700,6 +1713,8 @@ def handler_stmt_race_run(prop: str, workload: str, j_sym: Any, k_sym: Any, pick
                             w.deliver(row["id"])
                         finally:
                             HOOKS.ctx, HOOKS.handler_base, w._in_deliver, HOOKS.on_statement = saved
+                        if state["a"] == "SignalStage" and "w" in w.refs:
+                            w.signal_seen.append(w.peek_stage_status(w.refs["w"]))  # what A may read after the pre-emption
 
                 step = 0
                 raced_at = None
@@ -1711,13 +1726,19 @@ def handler_stmt_race_run(prop: str, workload: str, j_sym: Any, k_sym: Any, pick
                         break
                     if raced_at is None and hx.decide_eq(j_sym, step):
                         raced_at = step
-                        arow = vis[hx.pick(a_pick_sym, min(len(vis), 3))] if len(vis) > 1 else vis[0]  # A need not take the oldest message
+                        if inject is not None:
+                            inject(w)
+                            vis = visible()
+                        acand = vis[:2] + ([vis[-1]] if len(vis) > 2 else [])
+                        arow = acand[hx.pick(a_pick_sym, len(acand))] if len(vis) > 1 else vis[0]  # A need not take the oldest message
                         state["a"] = arow["message_type"]
+                        n_before = w.ledger.seq
                         HOOKS.on_statement = hook
                         try:
                             w.deliver(arow["id"])
                         finally:
                             HOOKS.on_statement = None
+                        state["in_flight"] = list(range(n_before + 1, w.ledger.seq + 1))
                     else:
                         w.deliver(vis[0]["id"])
                     step += 1
@@ -1739,6 +1760,10 @@ def handler_stmt_race_run(prop: str, workload: str, j_sym: Any, k_sym: Any, pick
                 q = quiescent_ok(snap)
                 if q is not None:
                     return P.fail("%s/handler_race/%s/%s/not_quiescent/%s" % (prop, workload, what, state_sig(summ)), {**info, "why": q})
+                if post is not None:
+                    badp = post(w, snap, {"injected": [1] if inject is not None else [], "in_flight_entries": state.get("in_flight") or []})
+                    if badp is not None:
+                        return P.fail("%s/handler_race/%s/%s/%s" % (prop, workload, what, badp[0]), {**info, "detail": badp[1]})
                 if compare != "none":
                     ref = reference(workload)
                     rs = ref["summary"]
